@@ -167,3 +167,17 @@ package pdnode_coord
 //@   requires dp != nil && dp.pdCoord != nil && dp.pdCoord.register != nil && namespaceInfo != nil
 //@   callassert addNamespaceToNode ghost(lastready, nil) == 1
 //@   modifies *
+
+// v2 re-balancing step (C17): a partition is moved from the most loaded node to the least loaded one only when the
+// least loaded node does not hold a replica of that partition yet - otherwise the partition would end up with two
+// replicas on one node (partial contract: only this call-site assertion, at both places a replica is moved)
+//@ property C17
+//@ func findPidInList(pid int, l []int) bool
+//@   ensures result <==> (exists i int :: 0 <= i && i < len(l) && l[i] == pid)
+//@ loop 1
+//@   invariant forall j int :: 0 <= j && j < iter ==> l[j] != pid
+//@ func moveIfUnbalanced(nameIndexMap map[string]int, newNodesLeaderMap map[string][]int, newNodesReplicaMap map[string][]int, partitionNodes [][]string) ([][]string, bool)
+//@   opt only=ASSERT
+//@   opt autoloops
+//@   callassert replaceReplicaWith forall i int :: 0 <= i && i < len(min.replicaPids) ==> min.replicaPids[i] != pid
+//@   modifies *
